@@ -195,7 +195,7 @@ func isExcludedEntField(path string) bool {
 		return true
 	case "Ent.Nested":
 		return currentResource == "collRO" // the whole record-typed field is read-only there
-	case "Pfx.Created", "Pfx.CreatedBy", "Pfx.Address", "Pfx.AddressLine2":
+	case "Pfx.Created", "Pfx.CreatedBy", "Pfx.Address", "Pfx.AddressLine2", "Pfx.ZAudit":
 		return true // collPfx: created / address read-only, createdBy / addressLine2 create-only
 	}
 	return false
